@@ -158,7 +158,9 @@ def isinstance_(interp, v, t, node=None):
             return Cond(("isinstance", vkey(v), t.path))
         # a concrete value against a third-party class: property/tunable style checks
         return Cond(("isinstance", vkey(v), t.path)) if isinstance(v, Obj) and v.cls.ext_bases() else False
-    if isinstance(t, PropertyTypeMarker):
+    if isinstance(t, BuiltinV) and t.name == "property":
+        if isinstance(v, (Ext, Sym)):
+            return Cond(("isinstance", vkey(v), "property"))
         return isinstance(v, PropertyV)
     raise Unsupported(f"isinstance against {t!r}", node)
 
@@ -381,6 +383,11 @@ def make_builtins(interp):
                 return e
             if isinstance(obj, Obj) and getattr(obj.cls, "open_attrs", None) is not None:
                 return obj.cls.open_attrs(i, obj, name, n)
+            if isinstance(obj, ClassV) and getattr(obj, "abstract_user", False):
+                key = "$userattr:" + show(name)
+                if key not in obj.ns:
+                    obj.ns[key] = Ext(f"{obj.name}.{{{show(name)}}}", "user", role="result", maybe_none=len(a) > 2 and a[2] is None)
+                return obj.ns[key]
             raise Unsupported(f"getattr with symbolic name {name!r} on {obj!r}", n)
         if isinstance(obj, Ext):
             key = "." + name
